@@ -10,7 +10,7 @@
 (*   Interleave(lists)           : round-robin merge of unequal lists      *)
 (*   BroadcastCompatible(shapes) : is_broadcast_compatible                 *)
 (***************************************************************************)
-EXTENDS Flat
+EXTENDS Flat, Num
 
 UnsqueezeShape(shape, axes) ==
   LET R == Len(shape) + Len(axes)
@@ -43,6 +43,23 @@ InterleaveRec(lists, acc) ==
            tails == [i \in 1..Len(lists) |-> IF lists[i] = <<>> THEN <<>> ELSE Tail(lists[i])]
        IN  InterleaveRec(tails, acc \o heads)
 InterleaveLists(lists) == InterleaveRec(lists, <<>>)
+
+(* ---- small numeric helpers, exact on integer / Gaussian-integer lattices ---- *)
+\* _unit_norm with ord = 1 along one axis: x / f(sum |x|), f = norm + eps ('plus'), max(norm, eps) ('max'),
+\* eps where norm = 0 else norm ('where'); eps = <<en, ed>> rational; x: flat integer tensor; result rational per entry
+L1Group(x, axis, idx) ==       \* indices sharing all coordinates of idx except `axis`
+  LET a == Ax(axis, Len(x.shape)) IN [j \in 1..x.shape[a + 1] |-> [idx EXCEPT ![a + 1] = j - 1]]
+UnitNormDen(x, axis, style, eps, idx) ==
+  LET g == L1Group(x, axis, idx)
+      n == SumSeq([j \in 1..Len(g) |-> Abs(Get(x, g[j]))])
+  IN  CASE style = "plus" -> RAdd(RInt(n), eps)
+        [] style = "max" -> IF RLe(RInt(n), eps) THEN eps ELSE RInt(n)
+        [] OTHER -> IF n = 0 THEN eps ELSE RInt(n)
+UnitNormAt(x, axis, style, eps, idx) == RDiv(RInt(Get(x, idx)), UnitNormDen(x, axis, style, eps, idx))
+\* force_hermitian on a Gaussian-integer matrix: (M + M^H) / 2, entries as pairs of rationals
+HermAt(M, i, j) == LET s == CAdd(M[i][j], CConj(M[j][i])) IN <<RNorm(s[1], 2), RNorm(s[2], 2)>>
+\* STFT bin centre frequencies k fs / size, k = 0 .. size/2
+CenterFrequencies(size, fs) == [k \in 1..(size \div 2 + 1) |-> RNorm((k - 1) * fs, size)]
 
 BroadcastCompatible(shapes) ==
   LET n == Len(shapes)
